@@ -16,9 +16,10 @@ void interpH(const json &in, json &out) {
   using namespace bspline::interpolation;
   const json &jx = in.at("x");
   const Grid<T> g = mkGrid<T>(jx.at("g"));
-  const Support<T> x = mkSupport<T>(jx, g);
+  // named, non-const operands: what a caller holds must be left as it was (C14)
+  Support<T> x = mkSupport<T>(jx, g);
   out["x"] = projSupport(x);
-  const std::vector<T> y = decVec<T>(in.at("y"));
+  std::vector<T> y = decVec<T>(in.at("y"));
   const bool dflt = in.at("dflt").get<int>() != 0;
   withOrder(in.at("order").get<size_t>(), [&](auto O) {
     constexpr size_t o = decltype(O)::value;
@@ -40,6 +41,10 @@ void interpH(const json &in, json &out) {
       out["lg"] = json{{"constructed", l.constructed}, {"size", l.size}, {"solves", l.solves}, {"oor", l.outOfRange},
                        {"was", l.writeAfterSolve}, {"rbs", l.readBeforeSolve}, {"m", l.mAccess}, {"b", l.bAccess}, {"x", l.xAccess}};
       out["x_after"] = projSupport(x);
+      out["y_after"] = encVec(y);
+      json ba = json::array();
+      for (const auto &b : bcs) ba.push_back(json{{"node", b.node == Node::FIRST ? 0 : 1}, {"d", b.derivative}, {"v", Codec<T>::enc(b.value)}});
+      out["bcs_after"] = std::move(ba);
     }
   });
 }
